@@ -257,8 +257,9 @@ def judge_line(target, line, level, width, indentation=None):
         return None          # not a lexable line (open quote): outside the family
     try:
         lines = wrapped(target, line, level, width, indentation)
-    except ValueError:
-        return None          # shlex refuses (no closing quotation): outside
+    except ValueError as e:
+        # the scanner oracle found every quote closed (regs is not None): refusing the line is a failure on valid input
+        return "wrap_line refuses a line whose quotes are all closed: ValueError: %s" % e
     except Exception as e:  # noqa
         return "wrap_line raised %s: %s" % (type(e).__name__, e)
     marker = "\\" if target == "python" else "&"
@@ -400,7 +401,7 @@ def generated_lines():
 
 def char_cases(tier, seed):
     cases = []
-    alpha = ["a", " ", "'", '"', "=", "("]
+    alpha = ["a", " ", "'", '"', "=", "(", "\\"]
     maxlen = 6 if tier == "quick" else 8
     for n in range(1, maxlen + 1):
         for t in itertools.product(alpha, repeat=n):
@@ -556,7 +557,7 @@ def main(tier, seed):
     for part in pmap("vf.checks.c20", "work_chars", [{"cases": c} for c in chunks(cases, common.NPROC * 2)]):
         run.absorb(part)
     run.bounds = {"tokens": "1..%d" % maxtok, "token_length": "1..200", "level": "0..8", "width": "8..132",
-                  "char_strings": "all lexable strings of <= %d characters over {a, blank, ', \", =, (} at width 8" % (6 if tier == "quick" else 8),
+                  "char_strings": "all lexable strings of <= %d characters over {a, blank, ', \", =, (, backslash} at width 8" % (6 if tier == "quick" else 8),
                   "generated_lines_x_widths": ngen}
     try:
         run.selftests = selftests()
